@@ -16,6 +16,11 @@ pub fn run_workload(sub: u64, only_n: Option<u64>, acc: &mut Acc, ctx: &Ctx, _th
     let invert = rng.chance(1, 4);
     let mmap = rng.chance(1, 2);
     let frag = !mmap && rng.chance(1, 2);
+    // a third route: the text arrives on standard input; and -U (the literal cannot match
+    // a line terminator, so the search stays line by line under a multi-line configuration)
+    let via_stdin = !mmap && !frag && rng.chance(1, 2);
+    let dash_u = rng.chance(1, 4);
+    let label: &[u8] = if via_stdin { b"<stdin>" } else { b"w/doc.txt" };
     let scratch = ctx.scratch.path().to_path_buf();
     let root = scratch.join("w");
     let _ = std::fs::remove_dir_all(&root);
@@ -29,6 +34,10 @@ pub fn run_workload(sub: u64, only_n: Option<u64>, acc: &mut Acc, ctx: &Ctx, _th
         .collect();
     let matches: Vec<usize> = (0..sel.len()).filter(|&i| sel[i]).collect();
     acc.mix.inc(&format!("A={a},B={b}{}", if invert { ",invert" } else { "" }));
+    acc.mix.inc(if via_stdin { "route:stdin" } else if mmap { "route:mmap" } else if frag { "route:fragmented-reads" } else { "route:read" });
+    if dash_u {
+        acc.mix.inc("-U");
+    }
     let mut digest = sub;
     for n in 0..=(matches.len() as u64 + 1) {
         if let Some(x) = only_n {
@@ -42,8 +51,14 @@ pub fn run_workload(sub: u64, only_n: Option<u64>, acc: &mut Acc, ctx: &Ctx, _th
             args.push("-v".into());
         }
         args.extend(gen_harmless_flags(&mut Rng::new(sub ^ 0xF1A6), &["-i", "-S"]));
-        args.extend(["foo".into(), "w/doc.txt".into()]);
-        let spec = RunSpec { args, plan: if frag { vec!["read_frag=5".into()] } else { vec!["noop=1".into()] }, ..RunSpec::default() };
+        if dash_u {
+            args.push("-U".into());
+        }
+        args.push("foo".into());
+        if !via_stdin {
+            args.push("w/doc.txt".into());
+        }
+        let spec = RunSpec { args, plan: if frag { vec!["read_frag=5".into()] } else { vec!["noop=1".into()] }, stdin: if via_stdin { Some(text.clone()) } else { None }, ..RunSpec::default() };
         let got = ctx.run(&scratch, &spec, 60);
         acc.evals += 1;
         acc.faults.inc("match-limit(-m N)");
@@ -63,7 +78,7 @@ pub fn run_workload(sub: u64, only_n: Option<u64>, acc: &mut Acc, ctx: &Ctx, _th
             if l == b"--" {
                 continue;
             }
-            let rest = &l[b"w/doc.txt".len().min(l.len())..];
+            let rest = &l[label.len().min(l.len())..];
             let digits: Vec<u8> = rest.iter().skip(1).cloned().take_while(|c| c.is_ascii_digit()).collect();
             if let Ok(k) = String::from_utf8_lossy(&digits).parse::<usize>() {
                 printed.push(k - 1);
